@@ -24,7 +24,7 @@ func (C07) Plan(tier string) core.Plan {
 
 func (C07) Info() core.Info {
 	return core.Info{
-		Rule:        "shape A: target parameter (n,T1), sometimes further named T1 parameters; 2-5 supplied named T0 values (sometimes all carrying one subtype label) among which each such parameter has a namesake; one converter with exactly one type-only input (T0) producing T1, sometimes with further inputs that are given directly by name, in positional / struct / pointer-struct / built form; shape B: supplied (n,T0); one converter that takes (n,T0) explicitly and one type-only T0->T1 converter; both with 0-4 unrelated distractors, every registration order, random casing of names, additional target parameters, sometimes another converter that also consumes T0, sometimes an earlier call of the same Func without the decisive option. Each world under 12-48 seeded iteration-order schedules. Oracle A: the converter received the token supplied as n and the target received that execution's product. Oracle B: the name-using converter is in the log, the type-only one is not. Non-trivial: always (the competing candidates are the shape); distinct = distinct (world shape, event-log hash)",
+		Rule:        "shape A: target parameter (n,T1), sometimes further named T1 parameters; 2-5 supplied named T0 values (sometimes all carrying one subtype label) among which each such parameter has a namesake; one converter with exactly one type-only input (T0) producing T1, sometimes with further inputs that are given directly by name, in positional / struct / pointer-struct / built form; shape B: supplied (n,T0); one converter that takes (n,T0) explicitly and one type-only T0->T1 converter; both with 0-4 unrelated distractors, every registration order, random casing of names, additional target parameters, sometimes another converter that also consumes T0, sometimes an earlier call of the same Func without the decisive option. Each world under 12-48 seeded iteration-order schedules. Oracle A: the converter received the token supplied as n and the target received that execution's product. Oracle B: the name-using converter is in the log, the type-only one is not; type-only struct fields are sometimes tagged name,typeOnly with a competing value's name. Non-trivial: always (the competing candidates are the shape); distinct = distinct (world shape, event-log hash)",
 		Assumptions: []string{"the statement covers a single conversion step; chains are not asserted"},
 		Probes:      []string{"c07_shape_a", "c07_shape_b", "c07_a_ge3_candidates", "c07_a_multi_param", "c07_a_subtyped_candidates", "c07_after_earlier_call", "c07_a_converter_with_named_flags", "c07_b_converter_with_named_flags", "c07_mixed_case_names", "s1_nonidentity_perms"},
 		Real:        realComponents,
